@@ -40,6 +40,26 @@ def concretise(rng, walk):
     return out
 
 
+PROBE = [{"op": "Write", "d": "ab", "x": 17, "kind": "ctr"}, {"op": "Write", "d": "ba", "x": 17, "kind": "ctr"},
+         {"op": "Deliver", "d": "ab", "x": -1}, {"op": "Deliver", "d": "ba", "x": -1},
+         {"op": "Read", "d": "ab", "x": 512}, {"op": "Read", "d": "ba", "x": 512}]
+
+
+def reuse_walks():
+    """partial read of a stream, Reopen (= close both endpoints as they are, new connection on the same wrapper), probe.
+    big: 8 MB of single-byte runs (a few hundred raw bytes: the decoder stops with output pending and raw input left);
+    mid: 70 000 incompressible bytes; zero: zero-length read"""
+    out = []
+    for d in ("ba", "ab"):
+        big = [{"op": "Write", "d": d, "x": 200000, "kind": "rep"} for _ in range(40)]
+        out.append(big + [{"op": "Deliver", "d": d, "x": -1}, {"op": "Read", "d": d, "x": 100}, {"op": "Reopen"}] + PROBE)
+        out.append([{"op": "Write", "d": d, "x": 70000, "kind": "rnd"}, {"op": "Deliver", "d": d, "x": -1},
+                    {"op": "Read", "d": d, "x": 7}, {"op": "Reopen"}] + PROBE)
+        out.append([{"op": "Write", "d": d, "x": 300, "kind": "ctr"}, {"op": "Deliver", "d": d, "x": -1},
+                    {"op": "Read", "d": d, "x": 0}, {"op": "Reopen"}] + PROBE + [{"op": "Reopen"}] + PROBE)
+    return out + out
+
+
 def uniq(behaviours):
     seen, out = set(), []
     for b in behaviours:
@@ -121,6 +141,12 @@ def run(ctx, pid):
     if len(exh) > nexh:
         exh = ctx.rng.sample(exh, nexh)
     walks = [concretise(ctx.rng, b) for b in exh + sim]
+    # session reuse: abandon a connection with undecoded / undelivered data (no drain), then a new connection
+    # through the same wrapper (same pooled codecs) must deliver exactly its own bytes
+    reuse = reuse_walks()
+    step = max(1, len(walks) // len(reuse))
+    for i, w in enumerate(reuse):
+        walks.insert(min(len(walks), i * step), w)
     wfile = ctx.tmp("walks.ndjson")
     vlib.write_ndjson(wfile, walks)
     ctx.log("schedules: %d exhaustive (of %d) + %d random" % (len(exh), exh_all, len(sim)))
@@ -159,11 +185,12 @@ def run(ctx, pid):
         "evaluations": rstats["sessions"] + sstats["sessions"], "distinct_nontrivial": nontrivial,
         "rule": "every environment schedule of length D over {Write(size class), Deliver(chunk class), Read(buffer class), Close, Break} "
                 "(TLC BFS of Gen_Stream) plus TLC random walks of 14 environment actions, size classes mapped to concrete byte counts with "
-                "the seeded rng, each executed on none/gzip/zstd/brotli and followed by drain + close + read-to-EOF; non-trivial = has a "
+                "the seeded rng, each executed on none/gzip/zstd/brotli and followed by drain + close + read-to-EOF; plus session-reuse walks "
+                "(partial or zero-length read, both endpoints closed without drain, new connection through the same wrapper, probe); non-trivial = has a "
                 "non-empty Write, a Deliver and a Read; plus free-running stress sessions",
         "exhaustive": len(exh) == exh_all,
         "events_validated": rstats["events"] + sstats["events"], "exhaustive_schedules": len(exh), "exhaustive_schedules_available": exh_all,
-        "random_walks": len(sim), "sessions_per_setting": cfgs, "write_sizes_seen": sizes, "read_buffers_seen": bufs,
+        "random_walks": len(sim), "session_reuse_walks": len(reuse), "sessions_per_setting": cfgs, "write_sizes_seen": sizes, "read_buffers_seen": bufs,
         "stress_sessions": sstats["sessions"], "stress_bytes": sstats["bytes"],
         "monitor_mismatches": len(mism) + len(smism), "unclean_end_notes": len(notes) + len(snotes),
         "watchdog": [x for x in (rstats.get("watchdog"), sstats.get("watchdog")) if x],
